@@ -1,4 +1,5 @@
 import Aplang.Proofs.ListLemmas
+import Aplang.Proofs.FloatIndex
 /-!
 # C04b — lists and strings as mathematical sequences; reference identity; assignment frame
 
@@ -870,6 +871,169 @@ theorem assign_total (x : Str) (v : Value) (σ : St) (hs : σ.scopes ≠ []) (hv
         exact ⟨setCell σ tgt (.list vs), by simp only [assignVar, hx, hb, Bool.false_eq_true, if_false, hsrc]⟩
     · exact ⟨_, (assign_first_binding_shares x src σ fr rest hs (fun t ht => hx ⟨t, ht⟩)).1⟩
   · exact ⟨_, assign_nonlist_rebinds x v σ fr rest hs (fun s e => hl ⟨s, e⟩)⟩
+
+/-! ## 5. Index validity in arithmetic terms, for every float
+
+`Proofs/FloatIndex.lean` derives from Lean's logical model of `Float` what the comparison `x ≥ 1.0`, the
+subtraction `x - 1.0` and the cast `as usize` compute. `F64.intPart x = some k` says: `x` is finite, not negative,
+and the integer part of its exact value is `k`. With it the validity of an index is the property's sentence:
+*`x` is a number whose integer part `k` satisfies `1 ≤ k ≤ LENGTH`; it denotes position `k`* (`k - 1` from 0).
+The only proviso is `LENGTH ≤ 2^52` (4.5 · 10^15 elements, more than a 64-bit address space can hold): from
+`2^53` on the float subtraction `x - 1.0` rounds. -/
+
+/-- index validity in the property's words -/
+def specIndex (n : Nat) (x : Float) : Option Nat :=
+  match F64.intPart x with
+  | some k => if 1 ≤ k ∧ k ≤ n then some (k - 1) else none
+  | none => none
+
+theorem specIndex_eq_some_iff (n : Nat) (x : Float) (i : Nat) :
+    specIndex n x = some i ↔ ∃ k, F64.intPart x = some k ∧ 1 ≤ k ∧ k ≤ n ∧ i = k - 1 := by
+  unfold specIndex
+  cases h : F64.intPart x with
+  | none => simp
+  | some k =>
+    by_cases hk : 1 ≤ k ∧ k ≤ n
+    · simp only [hk, and_self, if_true, Option.some.injEq]
+      constructor
+      · intro e; exact ⟨k, rfl, hk.1, hk.2, e.symm⟩
+      · rintro ⟨k', e, _, _, rfl⟩; cases e; rfl
+    · simp only [hk, if_false, Option.some.injEq]
+      constructor
+      · intro e; cases e
+      · rintro ⟨k', e, h1, h2, _⟩; cases e; exact absurd ⟨h1, h2⟩ hk
+
+theorem intPart_of_inf (x : Float) (h : F64.isPosInf x) : F64.intPart x = none := by
+  unfold F64.intPart; rw [h]; rfl
+
+/-- **the bracket index is the arithmetic one**: for every float and every length up to `2^52`, the position
+computed by the interpreter (`x ≥ 1.0`, `(x - 1.0) as usize`, bounds check) is the position the property
+describes -/
+theorem validIndex_eq_specIndex (n : Nat) (hn : n ≤ 2 ^ 52) (x : Float) : validIndex n x = specIndex n x := by
+  by_cases hge : x >= 1.0
+  · rcases (F64.ge_one_iff x).mp hge with hinf | ⟨k, hk, h1⟩
+    · have h2 : ¬ (2 ^ 64 - 1 < n) := by
+        have : (2 : Nat) ^ 52 < 2 ^ 64 - 1 := by decide
+        omega
+      simp only [validIndex, natIndex_inf x hinf, specIndex, intPart_of_inf x hinf, h2, if_false]
+    · by_cases hs : k < 2 ^ 53
+      · simp only [validIndex, natIndex_eq_small x k hk h1 hs, specIndex, hk, h1, true_and]
+        by_cases hkn : k ≤ n
+        · have : k - 1 < n := by omega
+          simp only [hkn, this, if_true]
+        · have : ¬ (k - 1 < n) := by omega
+          simp only [hkn, this, if_false]
+      · obtain ⟨i, hi, hib⟩ := natIndex_big x k hk (by omega)
+        have h1' : ¬ (i < n) := by omega
+        have h2' : ¬ (k ≤ n) := by
+          have : (2 : Nat) ^ 52 < 2 ^ 53 := by decide
+          omega
+        simp only [validIndex, hi, h1', if_false, specIndex, hk, h2', and_false]
+  · rw [validIndex_below_one n x hge]
+    unfold specIndex
+    cases hk : F64.intPart x with
+    | none => rfl
+    | some k =>
+      have : ¬ (1 ≤ k) := fun h1 => hge ((F64.ge_one_iff x).mpr (Or.inr ⟨k, hk, h1⟩))
+      simp only [this, false_and, if_false]
+
+/-- **REMOVE uses the same positions** (its own computation `(x as usize) - 1` agrees with the bracket's) -/
+theorem removePos_eq_specIndex (n : Nat) (hn : n ≤ 2 ^ 52) (x : Float) : removePos n x = specIndex n x := by
+  have hbig : (2 : Nat) ^ 52 < 2 ^ 64 - 2 := by decide
+  by_cases hge : x >= 1.0
+  · rcases (F64.ge_one_iff x).mp hge with hinf | ⟨k, hk, h1⟩
+    · have h2 : ¬ (2 ^ 64 - 1 - 1 < n) := by omega
+      simp only [removePos, argIndex, hge, if_true, F64.toUSize_inf x hinf, h2, if_false, specIndex,
+        intPart_of_inf x hinf]
+    · simp only [removePos, argIndex, hge, if_true, F64.toUSize_eq x k hk, specIndex, hk, h1, true_and]
+      by_cases hkn : k ≤ n
+      · have e : min k (2 ^ 64 - 1) = k := by omega
+        have : k - 1 < n := by omega
+        simp only [e, hkn, this, if_true]
+      · have : ¬ (min k (2 ^ 64 - 1) - 1 < n) := by omega
+        simp only [hkn, this, if_false]
+  · have h0 : removePos n x = none := by simp only [removePos, argIndex, hge, if_false]
+    rw [h0, ← validIndex_eq_specIndex n hn x, validIndex_below_one n x hge]
+
+/-- the bracket and REMOVE agree on every index of every list up to `2^52` elements … -/
+theorem removePos_eq_validIndex (n : Nat) (hn : n ≤ 2 ^ 52) (x : Float) : removePos n x = validIndex n x := by
+  rw [removePos_eq_specIndex n hn, validIndex_eq_specIndex n hn]
+
+/-- … and INSERT accepts exactly one position more: `1 ≤ ⌊x⌋ ≤ LENGTH + 1` -/
+theorem insertPos_eq_specIndex (n : Nat) (hn : n < 2 ^ 52) (x : Float) : insertPos n x = specIndex (n + 1) x := by
+  rw [insertPos_eq_removePos_succ, removePos_eq_specIndex (n + 1) (by omega)]
+
+/-- far beyond that bound the two computations do differ (kernel evaluation at `x = 2^53 + 2`, where `x - 1.0`
+is a tie and rounds to even): the bracket would take position `2^53`, REMOVE position `2^53 + 1` -/
+theorem index_computations_differ_beyond_2_53 :
+    natIndex 9007199254740994 = some 9007199254740992 ∧ argIndex 9007199254740994 = some 9007199254740993 := by
+  decide +kernel
+
+section
+variable (lt lb rb : Token) (σ : St) {a : Nat} {vs : List Value} (hl : getList σ a = some vs)
+  (hn : vs.length ≤ 2 ^ 52) {x : Float}
+include hl hn
+
+/-- **indexed read, in the property's words**: if the integer part `k` of the index satisfies
+`1 ≤ k ≤ LENGTH`, the result is the `k`-th element … -/
+theorem index_read_arith_valid {k : Nat} (hk : F64.intPart x = some k) (h1 : 1 ≤ k) (h2 : k ≤ vs.length) :
+    indexRead (.list a) (.num x) lt lb rb σ = .ok (vs[k - 1]'(by omega), σ) := by
+  have hv : validIndex vs.length x = some (k - 1) := by
+    rw [validIndex_eq_specIndex _ hn]; exact (specIndex_eq_some_iff _ _ _).mpr ⟨k, hk, h1, h2, rfl⟩
+  exact index_read_valid lt lb rb σ hl hv
+
+/-- … and in every other case (NaN, an infinity, a negative number, integer part 0 or above LENGTH) a runtime
+error with the state unchanged -/
+theorem index_read_arith_invalid (h : ∀ k, F64.intPart x = some k → k = 0 ∨ vs.length < k) :
+    indexRead (.list a) (.num x) lt lb rb σ = .err ⟨"Invalid List Index", interior lb rb⟩ σ := by
+  apply index_read_invalid lt lb rb σ hl
+  rw [validIndex_eq_specIndex _ hn]
+  rcases option_cases (specIndex vs.length x) with h0 | ⟨i, hi⟩
+  · exact h0
+  · obtain ⟨k, hk, h1, h2, _⟩ := (specIndex_eq_some_iff _ _ _).mp hi
+    rcases h k hk with h3 | h3 <;> omega
+
+theorem index_write_arith_valid (v : Value) {k : Nat} (hk : F64.intPart x = some k) (h1 : 1 ≤ k)
+    (h2 : k ≤ vs.length) :
+    indexWrite (.list a) (.num x) v lt lb rb σ = .ok (v, setCell σ a (.list (vs.set (k - 1) v))) := by
+  have hv : validIndex vs.length x = some (k - 1) := by
+    rw [validIndex_eq_specIndex _ hn]; exact (specIndex_eq_some_iff _ _ _).mpr ⟨k, hk, h1, h2, rfl⟩
+  exact index_write_valid lt lb rb σ hl v hv
+
+theorem index_write_arith_invalid (v : Value) (h : ∀ k, F64.intPart x = some k → k = 0 ∨ vs.length < k) :
+    indexWrite (.list a) (.num x) v lt lb rb σ = .err ⟨"Invalid List Index", interior lb rb⟩ σ := by
+  apply index_write_invalid lt lb rb σ hl
+  rw [validIndex_eq_specIndex _ hn]
+  rcases option_cases (specIndex vs.length x) with h0 | ⟨i, hi⟩
+  · exact h0
+  · obtain ⟨k, hk, h1, h2, _⟩ := (specIndex_eq_some_iff _ _ _).mp hi
+    rcases h k hk with h3 | h3 <;> omega
+
+end
+
+section
+variable (env : CharEnv) (σ : St) {a : Nat} {vs : List Value} (hl : getList σ a = some vs)
+  (hn : vs.length < 2 ^ 52) {x : Float}
+include hl hn
+
+/-- **INSERT(l, x, v) with `1 ≤ ⌊x⌋ ≤ LENGTH + 1`** puts `v` at position `⌊x⌋` -/
+theorem insert_arith_valid (v : Value) (s1 s2 s3 : Span) {k : Nat} (hk : F64.intPart x = some k) (h1 : 1 ≤ k)
+    (h2 : k ≤ vs.length + 1) :
+    callNative env .insert [.list a, .num x, v] [s1, s2, s3] σ =
+      .ok (.null, setCell σ a (.list (vs.insertIdx (k - 1) v))) := by
+  apply insert_valid env σ hl v s1 s2 s3
+  rw [insertPos_eq_specIndex _ hn]; exact (specIndex_eq_some_iff _ _ _).mpr ⟨k, hk, h1, h2, rfl⟩
+
+/-- **REMOVE(l, x) with `1 ≤ ⌊x⌋ ≤ LENGTH`** returns and deletes the `⌊x⌋`-th element -/
+theorem remove_arith_valid (s1 s2 : Span) {k : Nat} (hk : F64.intPart x = some k) (h1 : 1 ≤ k)
+    (h2 : k ≤ vs.length) :
+    callNative env .remove [.list a, .num x] [s1, s2] σ =
+      .ok (vs[k - 1]'(by omega), setCell σ a (.list (vs.eraseIdx (k - 1)))) := by
+  have hp : removePos vs.length x = some (k - 1) := by
+    rw [removePos_eq_specIndex _ (by omega)]; exact (specIndex_eq_some_iff _ _ _).mpr ⟨k, hk, h1, h2, rfl⟩
+  exact remove_valid env σ hl s1 s2 hp
+
+end
 
 /-! ## 4. Non-vacuity: the boundary indices and every headline theorem on a concrete heap -/
 
